@@ -767,7 +767,8 @@ def opRD (args obs : List String) : P String := do
     let twoD := r != 0
     let rows : List (List Int) := if twoD then toRows c cs else [cs]
     -- negative axes count from the last one: -1 = last axis, -2 = first axis of a 2-D array
-    let ax : Option Nat := if axis == "n" then none else if axis == "0" || axis == "-2" then some 0 else some 1
+    -- "n": the axis argument is left out (the function's own default); "N": `axis=None` is passed explicitly (the flattened array)
+    let ax : Option Nat := if axis == "n" || axis == "N" then none else if axis == "0" || axis == "-2" then some 0 else some 1
     -- effective axis on rows: a 1-D array is the single row, axis 0 → within that row
     let axr : Option Nat := match ax with
       | none => none
@@ -797,7 +798,9 @@ def opRD (args obs : List String) : P String := do
         | some a => pure (prodFmt x size, if twoD then [r, c] else [size], (alongAxis (cumprodCodes x size) a rows).flatten)
       | "sort" =>
         match axr with
-        | none => pure (x, if twoD then [r, c] else [size], (rows.map sortL).flatten)       -- default: the last axis
+        | none =>
+          if axis == "N" then pure (x, [size], sortL rows.flatten)                           -- axis=None: the flattened array, sorted
+          else pure (x, if twoD then [r, c] else [size], (rows.map sortL).flatten)          -- default: the last axis
         | some a => pure (x, if twoD then [r, c] else [size], (alongAxis sortL a rows).flatten)
       | "transpose" => pure (x, if twoD then [c, r] else [size], if twoD then (transposeL rows).flatten else cs)
       | "diagonal" => pure (x, [(diagL rows).length], diagL rows)
